@@ -5,6 +5,7 @@ import (
 	"go/ast"
 	"go/token"
 	"go/types"
+	"strings"
 
 	"golang.org/x/tools/go/cfg"
 
@@ -19,6 +20,7 @@ func c25(p *an.Prog, r *an.R, tier string) {
 	r.Rule("C25.R2", "gRPCChunkSender: the assignment that attaches the event's stats is guarded by a `not yet sent` flag which is set to true on that path; the flag is a bool initialised false per event")
 	r.Rule("C25.R3", "samplingSender.Send: every path reaches next.Send or agg.Stats.Add(event.Stats); the aggregate is reset only after it was forwarded (next.Send(&s.agg) or event.Stats.Add(s.agg.Stats)); Flush forwards s.agg.Stats under !Zero")
 	r.Rule("C25.R4", "Server.StreamSearch calls sampler.Flush() on the err == nil path after streamer.StreamSearch")
+	c25Wrappers(p, r)
 	statsT := p.Named("", "Stats")
 	addD := p.Decl(p.Func("", "(*Stats).Add"))
 	zeroD := p.Decl(p.Func("", "(*Stats).Zero"))
@@ -478,4 +480,76 @@ func c25Sampling(p *an.Prog, r *an.R) {
 			r.Check(!noFlush, "C25.R4", srv+".(*Server).StreamSearch/flush-after-success", as.Pos(), "after a successful StreamSearch every path to the return passes sampler.Flush()", "the handler can return after a successful StreamSearch without sampler.Flush(): statistics aggregated since the last forwarded event never reach the client")
 		}
 	}
+}
+
+// c25Wrappers: a function literal turned into a zoekt.Sender (zoekt.SenderFunc(func(ev) {..})) that passes events on to
+// another sender must do so on every path: an event it swallows takes its Stats and Progress with it.
+func c25Wrappers(p *an.Prog, r *an.R) {
+	r.Rule("C25.R6", "every zoekt.SenderFunc literal that forwards its event to another sender (x.Send(event)) does so on every path from entry to exit (limitSender, copyFileSender, the flush-collect sender, the statistics taps of typeRepoSearcher and loggedSearcher)")
+	senderFunc := p.Named("", "SenderFunc")
+	resT := p.Named("", "SearchResult")
+	if !r.Anchor(senderFunc != nil && resT != nil, "zoekt.SenderFunc / SearchResult") {
+		return
+	}
+	n := 0
+	p.AllDecls(func(fn *types.Func, d *an.DeclInfo) {
+		if d.Decl.Body == nil || strings.HasSuffix(p.Fset.Position(d.Decl.Pos()).Filename, "_test.go") {
+			return
+		}
+		info := d.Pkg.TypesInfo
+		k := 0
+		ast.Inspect(d.Decl.Body, func(m ast.Node) bool {
+			conv, ok := m.(*ast.CallExpr)
+			if !ok || len(conv.Args) != 1 {
+				return true
+			}
+			if tv, ok := info.Types[conv.Fun]; !ok || !tv.IsType() || an.NamedOf(tv.Type) != senderFunc {
+				return true
+			}
+			arg := conv.Args[0]
+			if dd := defOf(info, d.Decl.Body, arg); dd != nil {
+				arg = dd
+			}
+			lit, ok := ast.Unparen(arg).(*ast.FuncLit)
+			if !ok || len(lit.Type.Params.List) != 1 || len(lit.Type.Params.List[0].Names) != 1 {
+				return true
+			}
+			ev := info.ObjectOf(lit.Type.Params.List[0].Names[0])
+			g := an.NewG(info, lit.Body)
+			forwards := func(l an.Loc) bool {
+				hit := false
+				an.Inspect(g.Node(l), false, func(x ast.Node) bool {
+					c, ok := x.(*ast.CallExpr)
+					if !ok || len(c.Args) != 1 || !an.UsesObj(info, c.Args[0], ev) {
+						return true
+					}
+					if cf := an.Callee(info, c); cf != nil && cf.Name() == "Send" {
+						if sig, ok := cf.Type().(*types.Signature); ok && sig.Recv() != nil && sig.Params().Len() == 1 && an.NamedOf(sig.Params().At(0).Type()) == resT {
+							hit = true
+						}
+					}
+					return true
+				})
+				return hit
+			}
+			any := false
+			for _, l := range g.Locs(func(ast.Node) bool { return true }) {
+				if forwards(l) {
+					any = true
+				}
+			}
+			if !any {
+				return true // not a pass-through wrapper (e.g. the gRPC chunk sender, which re-packs the event: C25.R2)
+			}
+			k++
+			n++
+			key := fmt.Sprintf("%s/sender-wrapper#%d/forwards-every-event", an.FuncName(fn), k)
+			s := &an.Search{ExitIsTarget: true, Cut: forwards}
+			swallow := g.Reach(g.Entry(), false, s)
+			r.Check(!swallow, "C25.R6", key, lit.Pos(), "every path through the wrapper hands the event to the next sender",
+				"the wrapper can return without passing the event on: the event's Stats and Progress are lost (the streamed totals fall behind what the shards produced and behind batch Search)")
+			return true
+		})
+	})
+	r.Floor("C25.R6.pass-through-wrappers", 5, n)
 }
